@@ -44,6 +44,7 @@ func runC03(c *an.Ctx) string {
 	r024WireKeys(c, "R03.4")
 	r035ResponseData(c)
 	r15ResponseDecoder(c) // shared with C15 (rule id R15.1): the client picks the codec of the announced type
+	r15TextCodecs(c)      // shared with C15 (rule id R15.5): text bodies are decoded whole or not at all
 	r15ResponseEncoder(c) // shared with C15 (rule ids R15.1-R15.3): the server encodes with the codec of the type it announces
 	tplRangeIndexRule(c, "R03.5", "http/codegen/templates")
 	encoderNilGuards(c, "R03.6", "http/codegen/templates/response_encoder.go.tpl", "http/codegen/templates/partial/response.go.tpl")
